@@ -116,11 +116,20 @@ CaseMatches(d, P, c, p) ==
 
 Candidates(d, P, p) == {X \in Children(d, P) : \E c \in Cases(d, P, X) : CaseMatches(d, P, c, p)}
 
+(* A child that no constraint identifies and whose size is not constant (it has a payload, a dynamic array, ...): the  *)
+(* property's "match the constraints of X" holds vacuously for it and no payload length singles it out.  Where sizes   *)
+(* are consulted at all it may serve as the catch-all (the generated Rust does so when its size is delimited, not when *)
+(* it is unknown); the specification admits both answers.                                                              *)
+CatchAll(d, P, p) ==
+  {X \in Children(d, P) : NeedSize(d, P) /\ \E c \in Cases(d, P, X) : c.cons = {} /\ c.size < 0}
+
 (* what specialize() may answer: "none", or for a candidate X its Down result *)
 SpecializeOutcomes(d, P, p) ==
   LET cand == Candidates(d, P, p)
-  IN IF cand = {} THEN {[child |-> "", faults |-> {}, val |-> NoneV]}
-     ELSE {[child |-> X, faults |-> Down(d, P, X, p).faults, val |-> Down(d, P, X, p).val] : X \in cand}
+      opt == CatchAll(d, P, p) \ cand
+      out(X) == [child |-> X, faults |-> Down(d, P, X, p).faults, val |-> Down(d, P, X, p).val]
+  IN (IF cand = {} THEN {[child |-> "", faults |-> {}, val |-> NoneV]} ELSE {out(X) : X \in cand})
+     \cup (IF cand = {} THEN {out(X) : X \in opt} ELSE {})
 
 (* ------------------------- Python API binding -------------------------- *)
 (* Guide (python): a packet is parsed from its root type; the result is the *)
